@@ -641,7 +641,8 @@ impl Gen {
         let total = D::parse(&price).and_then(|d| d.times(size)).unwrap_or(size);
         let rate = info.bid_fee_info.as_ref().and_then(|f| D::parse(&f.rate));
         let fee_amt = rate.and_then(|r| r.fee_of(total)).unwrap_or(0);
-        let mut fee = if fee_amt > 0 || (info.bid_fee_info.is_some() && self.rng.pct(30)) { Some(coin(fee_amt, quote.clone())) } else { None };
+        // (an explicit zero-fee coin is a legal way of saying "no fee", with or without a configured rate)
+        let mut fee = if fee_amt > 0 || (info.bid_fee_info.is_some() && self.rng.pct(30)) || (info.bid_fee_info.is_none() && self.rng.pct(10)) { Some(coin(fee_amt, quote.clone())) } else { None };
         let mut id = self.rng.uuid();
         let mut sender = self.acct();
         let mut funds = self.funds_for(w, &quote, total.saturating_add(fee_amt));
